@@ -91,12 +91,13 @@ theorem history_independent (cfg : Config) (hc : cfg.clone = .deep) (hp : cfg.pa
   obtain ⟨_, h0, hy, _⟩ := hI.progs p (List.mem_of_getElem? hi) hk
   exact ⟨_, hy⟩
 
-/-- The same, for the policies of the CURRENT source (regenerated `Cel.Gen.Runtime.config`). -/
-theorem history_independent_current (ops : List Op) (i : Nat) (p : Prog)
-    (hi : (run Cel.Gen.Runtime.config World.init ops).progs[i]? = some p) (b : Bindings) :
-    (step Cel.Gen.Runtime.config (run Cel.Gen.Runtime.config World.init ops) (.evaluate i b)).2
-      = ideal Cel.Gen.Runtime.config p b :=
-  history_independent _ Cel.Bridge.Runtime.config_policies.1 Cel.Bridge.Runtime.config_policies.2.1 ops i p hi b
+/-- The same, for the policies of the CURRENT source (regenerated `Cel.Gen.Runtime.config`; whichever namespace
+`exec` receives — sequential evaluation does not depend on it). -/
+theorem history_independent_current (ns : NamespacePolicy) (ops : List Op) (i : Nat) (p : Prog)
+    (hi : (run (Cel.Gen.Runtime.config ns) World.init ops).progs[i]? = some p) (b : Bindings) :
+    (step (Cel.Gen.Runtime.config ns) (run (Cel.Gen.Runtime.config ns) World.init ops) (.evaluate i b)).2
+      = ideal (Cel.Gen.Runtime.config ns) p b :=
+  history_independent _ (Cel.Bridge.Runtime.config_policies ns).1 (Cel.Bridge.Runtime.config_policies ns).2 ops i p hi b
 
 /-- **Re-evaluation is stable.**  A program evaluated with bindings `b` at one point of a history and again with
 the same `b` after ANY further operations (`more`) observes the same. -/
